@@ -4,7 +4,7 @@
 # as (still used keys) + (new keys whose construct had a hand-written reason before). Keys without a reason are
 # printed and must be triaged by hand. Never run by the registered checks.
 set -e
-props="C01 C02 C03 C04 C05 C08 C09 C10 C11 C12 C13 C14 C16 C17 C18 C19"
+props="C01 C02 C03 C04 C05 C06 C08 C09 C10 C11 C12 C13 C14 C16 C17 C18 C19"
 rm -rf /tmp/regen; mkdir -p /tmp/regen
 for tier in quick thorough; do
   for p in $props; do
